@@ -24,6 +24,7 @@ import (
 	"reflect"
 	"regexp"
 	"runtime"
+	"runtime/pprof"
 	"sort"
 	"strings"
 	"sync"
@@ -47,6 +48,15 @@ import (
 type file struct {
 	Name  string
 	Bytes []byte
+	lex   *lexSummary // summary of the Go transcription of the tokenizer, computed once
+}
+
+func lexOf(f *file) *lexSummary {
+	if f.lex == nil {
+		s := lexRun(f.Bytes)
+		f.lex = &s
+	}
+	return f.lex
 }
 
 type recMgr struct {
@@ -62,7 +72,7 @@ func (m *recMgr) put(name string, content []byte) {
 			return
 		}
 	}
-	m.files = append(m.files, file{name, b})
+	m.files = append(m.files, file{Name: name, Bytes: b})
 }
 func (m *recMgr) CreateMainConfig(content []byte) bool { m.put("nginx.conf", content); return true }
 func (m *recMgr) CreateConfig(name string, content []byte) bool {
@@ -632,7 +642,7 @@ func filesVerdict(a, b []file) int {
 		if a[i].Name != b[i].Name {
 			return 2
 		}
-		if x := goVerdict(a[i].Bytes, b[i].Bytes); x > v {
+		if x := summaryVerdict(lexOf(&a[i]), lexOf(&b[i])); x > v {
 			v = x
 		}
 	}
@@ -1174,6 +1184,11 @@ func runJob(e *env, fi int, fx Fixture, plus bool, rng *vh.Rng, thorough bool, b
 
 func main() {
 	a := vh.ParseArgs()
+	if pf := os.Getenv("C06_PROF"); pf != "" {
+		f, _ := os.Create(pf)
+		_ = pprof.StartCPUProfile(f)
+		defer pprof.StopCPUProfile()
+	}
 	out, err := vh.NewWriter(a.Out)
 	if err != nil {
 		fmt.Fprintln(os.Stderr, err)
@@ -1455,7 +1470,7 @@ func suspectCap(thorough bool) int {
 	if thorough {
 		return 40
 	}
-	return 6
+	return 3
 }
 
 // ---------------------------------------------------------------- context selectors
